@@ -13,6 +13,7 @@ import (
 
 	"github.com/go-logr/logr"
 	"github.com/klauspost/compress/s2"
+	"github.com/pckhoi/meow"
 	"github.com/wrgl/wrgl/pkg/encoding/packfile"
 	"github.com/wrgl/wrgl/pkg/ingest"
 	"github.com/wrgl/wrgl/pkg/objects"
@@ -85,14 +86,17 @@ func (r *ObjectReceiver) saveTable(b []byte) (sum []byte, err error) {
 	if err != nil {
 		return
 	}
+	// the table object is what marks a table as present: write the objects derived from it first,
+	// so that an interruption never leaves a present table without its index
+	sumArr := meow.Checksum(0, b)
+	if err = ingest.IndexTable(r.db, sumArr[:], tbl, r.logger.V(1)); err != nil {
+		return nil, err
+	}
+	if err = ingest.ProfileTable(r.db, sumArr[:], tbl); err != nil {
+		return nil, err
+	}
 	sum, err = objects.SaveTable(r.db, b)
 	if err != nil {
-		return
-	}
-	if err = ingest.IndexTable(r.db, sum, tbl, r.logger.V(1)); err != nil {
-		return
-	}
-	if err = ingest.ProfileTable(r.db, sum, tbl); err != nil {
 		return
 	}
 	if r.saveObjHook != nil {
